@@ -156,6 +156,12 @@ def run_name(c):
 def run_other(c):
     k = c["k"]
     try:
+        if k == "mangled":
+            # a state function whose name starts with two underscores, written in a class body: Python binds it under
+            # '_<Class>__x', another name than the function's
+            env = {"StateMachine": StateMachine, "deco": deco, "d": c["d"]}
+            exec("class Owner%d(StateMachine):\n    def __x(self):\n        pass\n    __x = deco(d, __x)\n" % next(_uid), env)
+            return {"error": None}
         w = deco(c["d"], mkfn("orig"))
         if k == "alias":
             type("A%d" % next(_uid), (StateMachine,), {"other": w})
@@ -199,6 +205,9 @@ def main():
     a = ap.parse_args()
     if a.attrs:
         names = [n for n in dir(StateMachine) if n.isidentifier() and not keyword.iskeyword(n)]
+        # ... and what the class answers to through its metaclass (StateMachine.mro, StateMachine.__name__, ...), which
+        # dir() of a class leaves out
+        names += [n for n in dir(type) if n not in names and n.isidentifier() and hasattr(StateMachine, n)]
         json.dump(names, open(a.attrs, "w"))
         return
     out = []
